@@ -87,7 +87,7 @@ func init() {
 	})
 	register(&Prop{
 		ID:    "C15",
-		Rules: []func(*core.Ctx){RDirAcc, RDirBits, RReverse, RLookDir, RDirCtx, RDirTrunc, RSib, rDirFoldOnly},
+		Rules: []func(*core.Ctx){RDirAcc, RDirBits, RReverse, RLookDir, RDirCtx, RDirTrunc, RNonNegLen, RSib, rDirFoldOnly},
 		Explanation: "Structural carriers of direction: R-DIRACC (who may move the text position), R-DIRBITS (every text-consuming emit carries the node's Rtl bit), R-REVERSE (concatenations are attached reversed), R-LOOKDIR (lookahead clears / lookbehind sets the direction), R-DIRCTX (left-to-right-only reasoning stays in left-to-right context), R-SIB (sibling handlers agree, including on bump()), R-DIRFOLD (folds over the match sequence are direction-aware). " +
 			"That each right-to-left branch computes the mirrored result is NOT decided.",
 	})
@@ -123,7 +123,7 @@ func init() {
 	})
 	register(&Prop{
 		ID:    "C08",
-		Rules: []func(*core.Ctx){RCapNorm, RLastCap, RRuneWidth, RLazyTable, RStrText, RUnits},
+		Rules: []func(*core.Ctx){RCapNorm, RLastCap, RNonNegLen, RRuneWidth, RLazyTable, RStrText, RUnits},
 		Explanation: "R-CAPNORM (capture lengths are computed after the end<start swap), R-LASTCAP (a group's embedded capture is its last one; group 0 has exactly one capture from matches[0]: affine evaluation of the index expressions), R-RUNEWIDTH (every byte mapper that sizes runes with RuneLen re-decodes under RuneError), R-STRTEXT (string entry points build match text from the original string), R-UNITS (byte offsets never become rune positions). " +
 			"0 <= index <= index+length <= len for every capture (which depends on the interpreter's positions), balancing compaction and value-for-value agreement of the mappers are NOT decided.",
 	})
